@@ -1,18 +1,1278 @@
-//! C16 — not built yet.
+//! C16 — domain names are always well-formed and compared case-insensitively.
+//!
+//! Bounded-exhaustive enumeration of every way the code constructs a
+//! `DomainName` (from labels, from dotted text, from the wire, by joining a
+//! relative name to an origin through `make_subdomain_of`,
+//! `from_relative_dotted_string` and the zone-file reader), compared with a
+//! reference that works on plain `Vec<Vec<u8>>` label lists:
+//!  * invariant on every name obtained: last label empty, no other empty label,
+//!    labels <= 63, `len == sum(1 + |label|) <= 255`, no upper-case ASCII letter;
+//!  * constructors succeed exactly when the reference says the limits hold, and
+//!    the labels obtained are the reference's (ASCII letters lower-cased, every
+//!    other octet untouched);
+//!  * `==`, `Hash`, `Ord`, `Zones::get` and `SharedCache` lookups do not see
+//!    letter case;
+//!  * dotted text of a name made of ASCII labels without dots reads back as the
+//!    same name;
+//!  * `is_subdomain_of` is the label-wise suffix relation.
+
+use crate::c03;
 use crate::common::*;
-use serde_json::Value;
+use crate::refwire;
+use crate::util::*;
+use dns_resolver::cache::SharedCache;
+use dns_types::protocol::types::*;
+use dns_types::zones::types::{Zone, Zones};
+use serde_json::{json, Value};
+use std::collections::hash_map::DefaultHasher;
+use std::collections::BTreeMap;
+use std::hash::{Hash, Hasher};
+use std::sync::atomic::{AtomicBool, AtomicUsize, Ordering};
 
-pub fn run(_ctx: &Ctx) -> i32 {
-    eprintln!("C16: check not built");
-    2
+type Labels = Vec<Vec<u8>>; // non-root labels, leftmost first
+
+// ---------------------------------------------------------------------------------------------
+// reference
+// ---------------------------------------------------------------------------------------------
+
+fn ref_lower(b: &[u8]) -> Vec<u8> {
+    b.iter().map(|c| if (b'A'..=b'Z').contains(c) { c + 32 } else { *c }).collect()
 }
 
-pub fn replay(_ctx: &Ctx, _v: &Value) -> i32 {
-    eprintln!("C16: check not built");
-    2
+/// wire length of the absolute name made of these non-root labels
+fn ref_len(l: &Labels) -> usize {
+    l.iter().map(|x| 1 + x.len()).sum::<usize>() + 1
 }
 
-/// Entry point for `vcheck worker C16 <args...>` (child-process mode).
+/// May these non-root labels form a name?
+fn ref_valid(l: &Labels) -> bool {
+    l.iter().all(|x| !x.is_empty() && x.len() <= 63) && ref_len(l) <= 255
+}
+
+fn ref_is_suffix(sub: &Labels, sup: &Labels) -> bool {
+    sub.len() >= sup.len() && sub[sub.len() - sup.len()..] == sup[..]
+}
+
+/// Reference reading of an absolute dotted string; `None` = must be refused.
+/// (The empty string is not judged, D9.)
+fn ref_parse_absolute(s: &str) -> Option<Labels> {
+    if s == "." {
+        return Some(vec![]);
+    }
+    let body = s.strip_suffix('.')?;
+    let labels: Labels = body.split('.').map(|x| ref_lower(x.as_bytes())).collect();
+    if ref_valid(&labels) {
+        Some(labels)
+    } else {
+        None
+    }
+}
+
+/// The invariant every constructed name must satisfy.
+pub fn invariant(n: &DomainName) -> Result<(), String> {
+    if n.labels.is_empty() {
+        return Err("no labels at all".into());
+    }
+    let last = n.labels.len() - 1;
+    let mut total = 0usize;
+    for (i, l) in n.labels.iter().enumerate() {
+        let o = l.octets();
+        if o.len() > 63 {
+            return Err(format!("label {i} has {} octets", o.len()));
+        }
+        if i == last && !o.is_empty() {
+            return Err("last label is not the root label".into());
+        }
+        if i != last && o.is_empty() {
+            return Err(format!("empty label at position {i}"));
+        }
+        if o.iter().any(|c| c.is_ascii_uppercase()) {
+            return Err(format!("label {i} holds an upper-case letter"));
+        }
+        total += 1 + o.len();
+    }
+    if n.len != total {
+        return Err(format!("recorded len {} but encoded length {total}", n.len));
+    }
+    if total > 255 {
+        return Err(format!("encoded length {total} > 255"));
+    }
+    Ok(())
+}
+
+fn invariant_ok(n: &DomainName) -> bool {
+    if n.labels.is_empty() {
+        return false;
+    }
+    let last = n.labels.len() - 1;
+    let mut total = 0usize;
+    for (i, l) in n.labels.iter().enumerate() {
+        let o = l.octets();
+        if o.len() > 63 || (i == last) != o.is_empty() || o.iter().any(|c| c.is_ascii_uppercase()) {
+            return false;
+        }
+        total += 1 + o.len();
+    }
+    n.len == total && total <= 255
+}
+
+fn labels_of(n: &DomainName) -> Labels {
+    n.labels.iter().filter(|l| !l.is_empty()).map(|l| l.octets().to_vec()).collect()
+}
+
+fn show_labels(l: &Labels) -> String {
+    if l.is_empty() {
+        return ".".into();
+    }
+    let mut s = String::new();
+    for x in l {
+        if x.len() > 12 {
+            s.push_str(&format!("{}…({})", show_bytes(&x[..6]), x.len()));
+        } else {
+            s.push_str(&show_bytes(x));
+        }
+        s.push('.');
+    }
+    s
+}
+
+fn hash_of<T: Hash>(t: &T) -> u64 {
+    let mut h = DefaultHasher::new();
+    t.hash(&mut h);
+    h.finish()
+}
+
+// ---------------------------------------------------------------------------------------------
+// accumulation
+// ---------------------------------------------------------------------------------------------
+
+#[derive(Default)]
+struct Acc {
+    evals: u64,
+    names: u64,
+    hist: BTreeMap<String, u64>,
+    nontrivial: Vec<u64>,
+    viols: Vec<Violation>,
+    viol_counts: BTreeMap<String, u64>,
+    samples: Vec<Value>,
+}
+
+impl Acc {
+    fn h(&mut self, k: &str) {
+        match self.hist.get_mut(k) {
+            Some(v) => *v += 1,
+            None => {
+                self.hist.insert(k.to_string(), 1);
+            }
+        }
+    }
+    fn nt(&mut self, tag: &str, data: &[u8]) {
+        let mut h = fnv64(tag.as_bytes());
+        h ^= fnv64(data).rotate_left(17);
+        self.nontrivial.push(h);
+    }
+    fn bad(&mut self, clause: &str, summary: String, replay: Value) {
+        *self.viol_counts.entry(clause.to_string()).or_insert(0) += 1;
+        let have = self.viols.iter().filter(|v| v.clause == clause).count();
+        if have < 6 {
+            self.viols.push(Violation { clause: clause.into(), summary, replay, slug: None });
+        } else if let Some(pos) = self.viols.iter().position(|v| v.clause == clause && v.summary.len() > summary.len()) {
+            // keep the shortest witnesses
+            self.viols[pos] = Violation { clause: clause.into(), summary, replay, slug: None };
+        }
+    }
+    /// invariant + expected labels of a name that was obtained
+    fn check_name(&mut self, what: &str, n: &DomainName, expect: Option<&Labels>, replay: &Value) -> bool {
+        self.names += 1;
+        if let Err(e) = invariant(n) {
+            self.bad("invariant", format!("{what}: {e} (name `{}`)", show_name(n)), replay.clone());
+            return false;
+        }
+        if let Some(e) = expect {
+            if labels_of(n) != *e {
+                self.bad(
+                    "labels",
+                    format!("{what}: obtained `{}` but the reference reads `{}`", show_name(n), show_labels(e)),
+                    replay.clone(),
+                );
+                return false;
+            }
+        }
+        true
+    }
+    fn merge(&mut self, o: Acc) {
+        self.evals += o.evals;
+        self.names += o.names;
+        for (k, v) in o.hist {
+            *self.hist.entry(k).or_insert(0) += v;
+        }
+        self.nontrivial.extend(o.nontrivial);
+        for (k, v) in o.viol_counts {
+            *self.viol_counts.entry(k).or_insert(0) += v;
+        }
+        self.viols.extend(o.viols);
+        for s in o.samples {
+            if self.samples.len() < 8 {
+                self.samples.push(s);
+            }
+        }
+    }
+}
+
+thread_local! {
+    static GUARDED: std::cell::Cell<bool> = const { std::cell::Cell::new(false) };
+}
+
+/// Panics of the code under test are caught and judged by the caller; their
+/// messages are not printed (panics of the harness itself still are).
+fn install_quiet_hook() {
+    let default = std::panic::take_hook();
+    std::panic::set_hook(Box::new(move |info| {
+        if !GUARDED.with(|g| g.get()) {
+            default(info);
+        }
+    }));
+}
+
+fn guarded<T>(f: impl FnOnce() -> T) -> Result<T, ()> {
+    let before = GUARDED.with(|g| g.replace(true));
+    let r = std::panic::catch_unwind(std::panic::AssertUnwindSafe(f)).map_err(|_| ());
+    GUARDED.with(|g| g.set(before));
+    r
+}
+
+// ---------------------------------------------------------------------------------------------
+// A/B: from_labels, Label::try_from
+// ---------------------------------------------------------------------------------------------
+
+fn label_bytes(len: usize, salt: usize) -> Vec<u8> {
+    // letters of both cases, a digit and a hyphen, so lower-casing is visible
+    const AL: &[u8] = b"aBcDeFgH1-";
+    (0..len).map(|i| AL[(i + salt) % AL.len()]).collect()
+}
+
+/// Every vector of label lengths with encoded length 240..=262 made of: any
+/// number of labels of 62 or 63 octets, labels of 31 octets (only in vectors
+/// without a free label), at most `small` labels of length 1 or 2, and at most
+/// one "free" label of any other length 3..=61 — each in any position.  The
+/// free label makes every total in the range (in particular 254, 255, 256)
+/// reachable in many ways.
+fn length_vectors(small: usize, free_with_31: bool) -> Vec<Vec<usize>> {
+    struct St {
+        smalls: usize,
+        free: bool,
+        has31: bool,
+    }
+    fn rec(cur: &mut Vec<usize>, total: usize, st: &mut St, max_small: usize, free_with_31: bool, out: &mut Vec<Vec<usize>>) {
+        let enc = total + 1;
+        if (240..=262).contains(&enc) {
+            out.push(cur.clone());
+        }
+        if enc >= 262 {
+            return;
+        }
+        for l in 1..=63usize {
+            let is_small = l <= 2;
+            let is_big = l == 62 || l == 63;
+            let is31 = l == 31;
+            let is_free = !is_small && !is_big && !is31;
+            if total + 1 + l + 1 > 262 {
+                continue;
+            }
+            if is_small && st.smalls >= max_small {
+                continue;
+            }
+            if is_free && (st.free || (st.has31 && !free_with_31)) {
+                continue;
+            }
+            if is31 && st.free && !free_with_31 {
+                continue;
+            }
+            let (s0, f0, h0) = (st.smalls, st.free, st.has31);
+            st.smalls += usize::from(is_small);
+            st.free |= is_free;
+            st.has31 |= is31;
+            cur.push(l);
+            rec(cur, total + 1 + l, st, max_small, free_with_31, out);
+            cur.pop();
+            st.smalls = s0;
+            st.free = f0;
+            st.has31 = h0;
+        }
+    }
+    let mut out = Vec::new();
+    rec(&mut Vec::new(), 0, &mut St { smalls: 0, free: false, has31: false }, small, free_with_31, &mut out);
+    out
+}
+
+fn check_from_labels(acc: &mut Acc, lens: &[usize], salt: usize) {
+    let raw: Labels = lens.iter().enumerate().map(|(i, l)| label_bytes(*l, i + salt)).collect();
+    let lowered: Labels = raw.iter().map(|l| ref_lower(l)).collect();
+    let mk = |ls: &Labels, root_at: Option<usize>| -> Vec<Label> {
+        let mut v: Vec<Label> = ls.iter().map(|l| Label::try_from(&l[..]).expect("harness label")).collect();
+        if let Some(p) = root_at {
+            v.insert(p, Label::new());
+        }
+        v
+    };
+    let replay = |root_at: Option<usize>| json!({"kind": "from_labels", "lengths": lens, "salt": salt, "empty_label_at": root_at});
+    // the empty label in every position (position == len: the well-formed place)
+    for p in 0..=raw.len() {
+        acc.evals += 1;
+        let want_ok = p == raw.len() && ref_valid(&lowered);
+        let got = guarded(|| DomainName::from_labels(mk(&raw, Some(p))));
+        let tag = if want_ok { "from_labels/accepted" } else if p == raw.len() { "from_labels/refused-too-long" } else { "from_labels/refused-inner-empty-label" };
+        acc.h(tag);
+        if p == raw.len() {
+            let mut d: Vec<u8> = lens.iter().map(|l| *l as u8).collect();
+            d.push(salt as u8);
+            acc.nt("from_labels", &d);
+        }
+        match got {
+            Err(()) => acc.bad("panic", format!("from_labels panicked for lengths {lens:?} with the empty label at {p}"), replay(Some(p))),
+            Ok(Some(n)) => {
+                if !want_ok {
+                    acc.bad(
+                        "accepts-invalid",
+                        format!("from_labels accepted lengths {lens:?} (encoded length {}) with the empty label at position {p} of {}", ref_len(&lowered), raw.len()),
+                        replay(Some(p)),
+                    );
+                } else {
+                    acc.check_name(&format!("from_labels lengths {lens:?}"), &n, Some(&lowered), &replay(Some(p)));
+                }
+            }
+            Ok(None) => {
+                if want_ok {
+                    acc.bad(
+                        "rejects-valid",
+                        format!("from_labels refused lengths {lens:?} (encoded length {})", ref_len(&lowered)),
+                        replay(Some(p)),
+                    );
+                }
+            }
+        }
+    }
+    // no terminating empty label at all
+    acc.evals += 1;
+    acc.h("from_labels/refused-no-root");
+    if let Ok(Some(_)) = guarded(|| DomainName::from_labels(mk(&raw, None))) {
+        acc.bad("accepts-invalid", format!("from_labels accepted lengths {lens:?} without a root label"), replay(None));
+    }
+}
+
+fn check_label_try_from(acc: &mut Acc) {
+    for len in [0usize, 1, 2, 31, 62, 63, 64, 65, 127, 128, 255, 256, 1000] {
+        for salt in 0..3 {
+            acc.evals += 1;
+            let raw = label_bytes(len, salt);
+            let got = guarded(|| Label::try_from(&raw[..]));
+            acc.nt("label", &[len as u8, (len >> 8) as u8, salt as u8]);
+            let replay = json!({"kind": "label", "len": len, "salt": salt});
+            match got {
+                Err(()) => acc.bad("panic", format!("Label::try_from panicked at {len} octets"), replay),
+                Ok(Ok(l)) => {
+                    acc.h("label/accepted");
+                    if len > 63 {
+                        acc.bad("accepts-invalid", format!("Label::try_from accepted {len} octets"), replay);
+                    } else if l.octets()[..] != ref_lower(&raw)[..] || l.len() as usize != len {
+                        acc.bad("labels", format!("Label::try_from({}) holds {}", show_bytes(&raw), show_bytes(l.octets())), replay);
+                    }
+                }
+                Ok(Err(_)) => {
+                    acc.h("label/refused");
+                    if len <= 63 {
+                        acc.bad("rejects-valid", format!("Label::try_from refused {len} octets"), replay);
+                    }
+                }
+            }
+        }
+    }
+    // every octet value alone in a label: only A-Z change
+    for c in 0..=255u8 {
+        acc.evals += 1;
+        let raw = [b'x', c, b'Y'];
+        match guarded(|| Label::try_from(&raw[..])) {
+            Ok(Ok(l)) if l.octets()[..] == ref_lower(&raw)[..] => acc.h("label/octet-preserved"),
+            Ok(Ok(l)) => acc.bad("labels", format!("Label::try_from({}) holds {}", show_bytes(&raw), show_bytes(l.octets())), json!({"kind": "label-octet", "octet": c})),
+            _ => acc.bad("rejects-valid", format!("Label::try_from refused a 3-octet label holding {c:#04x}"), json!({"kind": "label-octet", "octet": c})),
+        }
+    }
+}
+
+// ---------------------------------------------------------------------------------------------
+// C: from_dotted_string
+// ---------------------------------------------------------------------------------------------
+
+fn check_dotted(acc: &mut Acc, s: &str, space: &str) {
+    acc.evals += 1;
+    let replay = json!({"kind": "dotted", "text": s});
+    if s.is_empty() {
+        // D9: not judged, but whatever comes back must satisfy the invariant
+        if let Ok(Some(n)) = guarded(|| DomainName::from_dotted_string(s)) {
+            acc.check_name("from_dotted_string(\"\")", &n, None, &replay);
+        }
+        acc.h(&format!("{space}/empty-string-not-judged"));
+        return;
+    }
+    let want = ref_parse_absolute(s);
+    let got = guarded(|| DomainName::from_dotted_string(s));
+    let near_limit = s.len() > 200 || s.split('.').any(|l| l.len() >= 63);
+    if near_limit || s.bytes().any(|c| c.is_ascii_uppercase()) || want.is_none() {
+        acc.nt("dotted", s.as_bytes());
+    }
+    let short = if s.len() > 40 { format!("{}…({} chars)", &s[..30], s.len()) } else { s.to_string() };
+    match (got, want) {
+        (Err(()), _) => acc.bad("panic", format!("from_dotted_string panicked on {short:?}"), replay),
+        (Ok(Some(n)), Some(w)) => {
+            acc.h(&format!("{space}/accepted"));
+            if acc.check_name(&format!("from_dotted_string({short:?})"), &n, Some(&w), &replay) {
+                // FromStr must agree
+                if s.parse::<DomainName>().ok().as_ref() != Some(&n) {
+                    acc.bad("labels", format!("FromStr differs from from_dotted_string on {short:?}"), replay);
+                }
+            }
+        }
+        (Ok(Some(n)), None) => {
+            acc.h(&format!("{space}/accepted-but-invalid"));
+            acc.bad("accepts-invalid", format!("from_dotted_string accepted {short:?} as `{}`", show_name(&n)), replay);
+        }
+        (Ok(None), Some(w)) => {
+            acc.h(&format!("{space}/refused-but-valid"));
+            acc.bad("rejects-valid", format!("from_dotted_string refused {short:?} (reference: `{}`, {} octets)", show_labels(&w), ref_len(&w)), replay);
+        }
+        (Ok(None), None) => acc.h(&format!("{space}/refused")),
+    }
+}
+
+fn small_string(mut idx: u64, maxlen: usize) -> String {
+    // all strings of length 0..=maxlen over {a, B, .}, shortest first
+    const AL: [char; 3] = ['a', 'B', '.'];
+    let mut len = 0usize;
+    let mut block = 1u64;
+    while idx >= block {
+        idx -= block;
+        block *= 3;
+        len += 1;
+        if len > maxlen {
+            return String::new();
+        }
+    }
+    let mut v = vec!['a'; len];
+    for i in (0..len).rev() {
+        v[i] = AL[(idx % 3) as usize];
+        idx /= 3;
+    }
+    v.into_iter().collect()
+}
+
+fn n_small_strings(maxlen: usize) -> u64 {
+    (0..=maxlen as u32).map(|k| 3u64.pow(k)).sum()
+}
+
+/// Boundary strings: for every label stride 1..=64 a name of wire length
+/// 250..=258 (labels of `stride` octets, the last one shortened to fit), written
+/// with and without the final dot, in lower and mixed case.
+fn boundary_strings() -> Vec<String> {
+    let mut v = Vec::new();
+    for stride in 1..=64usize {
+        for wire in 250..=258usize {
+            let mut rem = wire - 1;
+            let mut labels: Vec<String> = Vec::new();
+            let mut i = 0usize;
+            while rem > 0 {
+                let take = if rem >= stride + 1 + 2 || rem == stride + 1 { stride + 1 } else { rem };
+                if take < 2 {
+                    break;
+                }
+                let c = if i % 2 == 0 { 'k' } else { 'Z' };
+                labels.push(std::iter::repeat(c).take(take - 1).collect());
+                rem -= take;
+                i += 1;
+            }
+            if rem != 0 {
+                continue;
+            }
+            let body = labels.join(".");
+            v.push(format!("{body}."));
+            v.push(body.clone());
+            v.push(format!("{body}.."));
+            v.push(format!(".{body}."));
+        }
+    }
+    for n in [62usize, 63, 64, 65, 255, 256] {
+        let l: String = std::iter::repeat('m').take(n).collect();
+        v.push(format!("{l}."));
+        v.push(format!("a.{l}."));
+        v.push(format!("{l}.a."));
+        v.push(l);
+    }
+    for s in [".", "..", "...", "a", "a..", ".a", "a..b.", "A.", "a.B.", "*.a.", "@.", " .", "a b.", "-.", "0."] {
+        v.push(s.to_string());
+    }
+    v
+}
+
+// ---------------------------------------------------------------------------------------------
+// E: joins
+// ---------------------------------------------------------------------------------------------
+
+/// non-root labels (letters only) whose encoding takes exactly `n` octets
+fn labels_taking(n: usize, fill: u8) -> Option<Labels> {
+    if n == 1 {
+        return None;
+    }
+    let mut out = Vec::new();
+    let mut rem = n;
+    while rem > 0 {
+        let take = if rem > 64 && rem != 65 { 64 } else if rem == 65 { 63 } else { rem };
+        out.push(vec![fill; take - 1]);
+        rem -= take;
+    }
+    Some(out)
+}
+
+fn text_of(l: &Labels) -> String {
+    l.iter().map(|x| String::from_utf8_lossy(x).to_string()).collect::<Vec<_>>().join(".")
+}
+
+/// Builds the name through the public fields, so that inputs handed to the
+/// functions under test do not depend on `from_labels` (which is itself judged).
+fn abs_name(l: &Labels) -> DomainName {
+    let mut labels: Vec<Label> = l.iter().map(|x| Label::try_from(&x[..]).expect("harness label")).collect();
+    labels.push(Label::new());
+    let len = ref_len(l);
+    DomainName { labels, len }
+}
+
+fn zone_owner_of_a(z: &Zone) -> Option<DomainName> {
+    for (name, recs) in z.all_records() {
+        if recs.iter().any(|r| matches!(r.rtype_with_data, RecordTypeWithData::A { .. })) {
+            return Some(name.clone());
+        }
+    }
+    None
+}
+
+fn zone_cname_target(z: &Zone) -> Option<DomainName> {
+    for (_, recs) in z.all_records() {
+        for r in recs {
+            if let RecordTypeWithData::CNAME { cname } = &r.rtype_with_data {
+                return Some(cname.clone());
+            }
+        }
+    }
+    None
+}
+
+fn check_join(acc: &mut Acc, r: usize, o: usize) {
+    // relative part of r octets, origin of o octets (root included)
+    let rel = match labels_taking(r, b'R') {
+        Some(l) => l,
+        None => return,
+    };
+    let org: Labels = if o == 1 { vec![] } else { match labels_taking(o - 1, b'g') { Some(l) => l, None => return } };
+    let joined: Labels = rel.iter().chain(org.iter()).map(|l| ref_lower(l)).collect();
+    let want_ok = ref_valid(&joined);
+    debug_assert_eq!(ref_len(&joined), r + o);
+    let origin = abs_name(&org);
+    let rel_text = text_of(&rel);
+    let origin_text = if org.is_empty() { ".".to_string() } else { format!("{}.", text_of(&org)) };
+    let replay = json!({"kind": "join", "relative_octets": r, "origin_octets": o});
+    let tag = if want_ok { "join/fits" } else { "join/too-long" };
+    acc.nt("join", &[(r & 0xff) as u8, (r >> 8) as u8, (o & 0xff) as u8, (o >> 8) as u8]);
+
+    let mut judge = |acc: &mut Acc, route: &str, got: Result<Option<DomainName>, ()>| {
+        acc.evals += 1;
+        acc.h(&format!("{tag}/{route}"));
+        match got {
+            Err(()) => acc.bad("panic", format!("{route} panicked joining {r} + {o} octets"), replay.clone()),
+            Ok(Some(n)) => {
+                if want_ok {
+                    acc.check_name(&format!("{route} joining {r} + {o} octets"), &n, Some(&joined), &replay);
+                } else if invariant(&n).is_err() || labels_of(&n) == joined {
+                    acc.bad("accepts-invalid", format!("{route} produced a name of {} octets from {r} + {o} octets", n.len), replay.clone());
+                } else {
+                    acc.bad("labels", format!("{route} joining {r} + {o} octets (too long) produced the unrelated name `{}`", show_name(&n)), replay.clone());
+                }
+            }
+            Ok(None) => {
+                if want_ok {
+                    acc.bad("rejects-valid", format!("{route} refused to join {r} + {o} = {} octets", r + o), replay.clone());
+                }
+            }
+        }
+    };
+
+    let rel_abs = abs_name(&rel);
+    judge(acc, "make_subdomain_of", guarded(|| rel_abs.make_subdomain_of(&origin)));
+    judge(acc, "from_relative_dotted_string", guarded(|| DomainName::from_relative_dotted_string(&origin, &rel_text)));
+    // zone file: owner relative to $ORIGIN
+    let z1 = format!("$ORIGIN {origin_text}\n{rel_text} 300 IN A 10.0.0.1\n");
+    judge(acc, "zone-file-owner", guarded(|| Zone::deserialise(&z1).ok().and_then(|z| zone_owner_of_a(&z))));
+    // zone file: RDATA name relative to $ORIGIN
+    let z2 = format!("$ORIGIN {origin_text}\nx.zz. 300 IN CNAME {rel_text}\n");
+    judge(acc, "zone-file-rdata", guarded(|| Zone::deserialise(&z2).ok().and_then(|z| zone_cname_target(&z))));
+    // zone file: relative $ORIGIN joined to the previous origin, then `@`
+    let z3 = format!("$ORIGIN {origin_text}\n$ORIGIN {rel_text}\n@ 300 IN A 10.0.0.1\n");
+    judge(acc, "zone-file-relative-origin", guarded(|| Zone::deserialise(&z3).ok().and_then(|z| zone_owner_of_a(&z))));
+}
+
+// ---------------------------------------------------------------------------------------------
+// F: case patterns
+// ---------------------------------------------------------------------------------------------
+
+const CASE_POOL: [&str; 30] = [
+    "a.", "z.", "ab.", "a.b.", "abc.", "a.b.c.", "ab.cd.", "abcdef.", "a-b.c.", "a1.b2.", "x.y.z.", "www.ex.", "m.n.op.",
+    "a.a.", "b.a.", "ba.", "a.ba.", "q-1.r.", "0a.", "a0.", "k.", "kk.", "k.k.k.", "abc.d.", "d.abc.", "ab.c.d.", "e.f.gh.", "z9.y8.x7.", "o.p.q.", "az.za.",
+];
+
+fn apply_case(base: &str, mask: u32) -> String {
+    let mut k = 0;
+    base.chars()
+        .map(|c| {
+            if c.is_ascii_lowercase() {
+                let up = mask & (1 << k) != 0;
+                k += 1;
+                if up {
+                    c.to_ascii_uppercase()
+                } else {
+                    c
+                }
+            } else {
+                c
+            }
+        })
+        .collect()
+}
+
+fn wire_question(labels: &Labels) -> Vec<u8> {
+    let mut m = vec![0x51, 0x51, 0, 0, 0, 1, 0, 0, 0, 0, 0, 0];
+    for l in labels {
+        m.push(l.len() as u8);
+        m.extend_from_slice(l);
+    }
+    m.extend_from_slice(&[0, 0, 1, 0, 1]);
+    m
+}
+
+fn name_from_wire_labels(labels: &Labels) -> Option<DomainName> {
+    Message::from_octets(&wire_question(labels)).ok().and_then(|m| m.questions.into_iter().next()).map(|q| q.name)
+}
+
+fn check_case(acc: &mut Acc, pi: usize, pool: &[DomainName]) {
+    let base_text = CASE_POOL[pi];
+    let base = &pool[pi];
+    let letters = base_text.chars().filter(|c| c.is_ascii_lowercase()).count() as u32;
+    let base_labels = labels_of(base);
+    let full = (1u32 << letters) - 1;
+    for mask in 0..=full {
+        let text = apply_case(base_text, mask);
+        let raw: Labels = text.trim_end_matches('.').split('.').map(|l| l.as_bytes().to_vec()).collect();
+        let replay = json!({"kind": "case", "base": base_text, "variant": text});
+        if mask != 0 {
+            acc.nt("case", text.as_bytes());
+        }
+        let built = guarded(|| {
+            let n_a = DomainName::from_dotted_string(&text);
+            let mut ls: Vec<Label> = raw.iter().map(|l| Label::try_from(&l[..]).expect("harness label")).collect();
+            ls.push(Label::new());
+            let n_b = DomainName::from_labels(ls);
+            let n_c = name_from_wire_labels(&raw);
+            (n_a, n_b, n_c)
+        });
+        let (n_a, n_b, n_c) = match built {
+            Ok(x) => x,
+            Err(()) => {
+                acc.bad("panic", format!("constructing `{text}` panicked"), replay);
+                continue;
+            }
+        };
+        for (route, n) in [("from_dotted_string", n_a), ("from_labels", n_b), ("wire", n_c)] {
+            acc.evals += 1;
+            acc.h(&format!("case/{route}"));
+            let n = match n {
+                Some(n) => n,
+                None => {
+                    acc.bad("rejects-valid", format!("{route} refused `{text}`"), replay.clone());
+                    continue;
+                }
+            };
+            if !acc.check_name(&format!("{route}(`{text}`)"), &n, Some(&base_labels), &replay) {
+                continue;
+            }
+            if n != *base {
+                acc.bad("case-eq", format!("`{text}` ({route}) != `{base_text}`"), replay.clone());
+            }
+            if hash_of(&n) != hash_of(base) {
+                acc.bad("case-hash", format!("`{text}` ({route}) hashes differently from `{base_text}`"), replay.clone());
+            }
+            if n.cmp(base) != std::cmp::Ordering::Equal || n.partial_cmp(base) != Some(std::cmp::Ordering::Equal) {
+                acc.bad("case-ord", format!("`{text}` ({route}) does not compare Equal to `{base_text}`"), replay.clone());
+            }
+            // ordering against every other pool name does not depend on the case pattern
+            for other in pool {
+                if n.cmp(other) != base.cmp(other) || other.cmp(&n) != other.cmp(base) {
+                    acc.bad("case-ord", format!("`{text}` vs `{}` orders differently from `{base_text}`", show_name(other)), replay.clone());
+                }
+            }
+            // zone selection and cache lookup: store under this pattern, ask with the opposite one
+            let asked_text = apply_case(base_text, !mask & full);
+            let asked = match guarded(|| DomainName::from_dotted_string(&format!("Sub.{asked_text}"))) {
+                Ok(Some(x)) => x,
+                _ => continue,
+            };
+            let found = guarded(|| {
+                let mut zs = Zones::new();
+                zs.insert(Zone::new(n.clone(), None));
+                zs.insert(Zone::new(DomainName::root_domain(), None));
+                let z = zs.get(&asked).map(|z| z.get_apex().clone());
+                let z_exact = zs.get(&DomainName::from_dotted_string(&asked_text).expect("harness")).map(|z| z.get_apex().clone());
+                (z, z_exact)
+            });
+            acc.evals += 1;
+            match found {
+                Ok((Some(z1), Some(z2))) if labels_of(&z1) == base_labels && labels_of(&z2) == base_labels => acc.h("case/zones-get-found"),
+                Ok(other) => acc.bad(
+                    "case-zone-selection",
+                    format!("zone stored with apex `{text}` ({route}); Zones::get(`Sub.{asked_text}`) / get(`{asked_text}`) selected {:?}", (other.0.map(|z| show_name(&z)), other.1.map(|z| show_name(&z)))),
+                    replay.clone(),
+                ),
+                Err(()) => acc.bad("panic", format!("Zones::get panicked for `{asked_text}`"), replay.clone()),
+            }
+            let cached = guarded(|| {
+                let cache = SharedCache::new();
+                cache.insert(&rr(&n, a([192, 0, 2, 7]), 3600));
+                let q = DomainName::from_dotted_string(&asked_text).expect("harness");
+                (cache.get(&q, QueryType::Record(RecordType::A)), cache.get(&q, QueryType::Wildcard))
+            });
+            acc.evals += 1;
+            match cached {
+                Ok((one, any)) if one.len() == 1 && any.len() == 1 && one[0].rtype_with_data == a([192, 0, 2, 7]) && labels_of(&one[0].name) == base_labels => acc.h("case/cache-hit"),
+                Ok((one, any)) => acc.bad(
+                    "case-cache-lookup",
+                    format!("record cached under `{text}` ({route}); lookup of `{asked_text}` returned {} (A) / {} (ANY) records", one.len(), any.len()),
+                    replay.clone(),
+                ),
+                Err(()) => acc.bad("panic", format!("cache lookup panicked for `{asked_text}`"), replay.clone()),
+            }
+        }
+    }
+}
+
+// ---------------------------------------------------------------------------------------------
+// G: text round trip, H: subdomain relation
+// ---------------------------------------------------------------------------------------------
+
+fn check_text_round_trip(acc: &mut Acc) {
+    for c in 0..128u8 {
+        if c == b'.' {
+            continue;
+        }
+        let forms: [Vec<u8>; 5] = [vec![c], vec![c, b'a'], vec![b'a', c, b'a'], vec![b'a', c], vec![c, c]];
+        for (fi, f) in forms.iter().enumerate() {
+            for shape in 0..3 {
+                acc.evals += 1;
+                let labels: Labels = match shape {
+                    0 => vec![f.clone()],
+                    1 => vec![f.clone(), b"x".to_vec()],
+                    _ => vec![b"y".to_vec(), f.clone(), f.clone()],
+                };
+                let replay = json!({"kind": "text-round-trip", "octet": c, "form": fi, "shape": shape});
+                acc.nt("text", &[c, fi as u8, shape as u8]);
+                let r = guarded(|| {
+                    let n = abs_name(&labels);
+                    let s = n.to_dotted_string();
+                    let back = DomainName::from_dotted_string(&s);
+                    (n, s, back)
+                });
+                match r {
+                    Err(()) => acc.bad("panic", format!("text round trip panicked for octet {c:#04x}"), replay),
+                    Ok((n, s, Some(back))) if back == n => {
+                        acc.h("text-round-trip/same");
+                        let lowered: Labels = labels.iter().map(|l| ref_lower(l)).collect();
+                        acc.check_name(&format!("text `{}`", show_bytes(s.as_bytes())), &back, Some(&lowered), &replay);
+                    }
+                    Ok((n, s, back)) => acc.bad(
+                        "text-round-trip",
+                        format!("`{}` written as {:?} reads back as {:?}", show_name(&n), s, back.map(|b| show_name(&b))),
+                        replay,
+                    ),
+                }
+            }
+        }
+    }
+    // root
+    acc.evals += 1;
+    let root = DomainName::root_domain();
+    if DomainName::from_dotted_string(&root.to_dotted_string()).as_ref() != Some(&root) {
+        acc.bad("text-round-trip", "the root name does not read back".into(), json!({"kind": "text-round-trip-root"}));
+    }
+}
+
+fn names_over(alphabet: &[&[u8]], max_labels: usize) -> Vec<Labels> {
+    let mut out: Vec<Labels> = vec![vec![]];
+    let mut layer: Vec<Labels> = vec![vec![]];
+    for _ in 0..max_labels {
+        let mut next = Vec::new();
+        for n in &layer {
+            for a in alphabet {
+                let mut m = n.clone();
+                m.push(a.to_vec());
+                next.push(m);
+            }
+        }
+        out.extend(next.iter().cloned());
+        layer = next;
+    }
+    out
+}
+
+fn check_subdomain(acc: &mut Acc, pool: &[Labels], tag: &str) {
+    let built: Vec<Option<DomainName>> = pool.iter().map(|l| guarded(|| name_from_wire_labels(l)).ok().flatten()).collect();
+    for (i, a) in pool.iter().enumerate() {
+        let na = match &built[i] {
+            Some(n) => n,
+            None => {
+                acc.bad("rejects-valid", format!("wire decoding refused `{}`", show_labels(a)), json!({"kind": "subdomain", "a": show_labels(a)}));
+                continue;
+            }
+        };
+        let replay_a = json!({"kind": "wire-name", "labels": a.iter().map(|l| hex(l)).collect::<Vec<_>>()});
+        acc.check_name("wire name", na, Some(a), &replay_a);
+        for (j, b) in pool.iter().enumerate() {
+            let nb = match &built[j] {
+                Some(n) => n,
+                None => continue,
+            };
+            acc.evals += 1;
+            let want = ref_is_suffix(a, b);
+            let got = guarded(|| na.is_subdomain_of(nb));
+            let text_suffix = text_of(a).ends_with(&text_of(b));
+            if want != text_suffix || (want && a.len() != b.len()) {
+                let mut d = Vec::new();
+                for l in a.iter().chain(std::iter::once(&b"|".to_vec())).chain(b.iter()) {
+                    d.push(l.len() as u8);
+                    d.extend_from_slice(l);
+                }
+                acc.nt("sub", &d);
+            }
+            acc.h(&format!("{tag}/{}", if want { "is-subdomain" } else if text_suffix { "not-subdomain-though-text-suffix" } else { "not-subdomain" }));
+            if got != Ok(want) {
+                acc.bad(
+                    "subdomain",
+                    format!("`{}`.is_subdomain_of(`{}`) = {:?}, label-wise suffix says {want}", show_labels(a), show_labels(b), got),
+                    json!({"kind": "subdomain", "a": a.iter().map(|l| hex(l)).collect::<Vec<_>>(), "b": b.iter().map(|l| hex(l)).collect::<Vec<_>>()}),
+                );
+            }
+        }
+    }
+}
+
+// ---------------------------------------------------------------------------------------------
+// D: names that come off the wire (C03's corpus)
+// ---------------------------------------------------------------------------------------------
+
+fn names_of_message<'a>(m: &'a Message, out: &mut Vec<&'a DomainName>) {
+    for q in &m.questions {
+        out.push(&q.name);
+    }
+    for r in m.answers.iter().chain(&m.authority).chain(&m.additional) {
+        out.push(&r.name);
+        match &r.rtype_with_data {
+            RecordTypeWithData::NS { nsdname: n }
+            | RecordTypeWithData::MD { madname: n }
+            | RecordTypeWithData::MF { madname: n }
+            | RecordTypeWithData::CNAME { cname: n }
+            | RecordTypeWithData::MB { madname: n }
+            | RecordTypeWithData::MG { mdmname: n }
+            | RecordTypeWithData::MR { newname: n }
+            | RecordTypeWithData::PTR { ptrdname: n }
+            | RecordTypeWithData::MX { exchange: n, .. }
+            | RecordTypeWithData::SRV { target: n, .. } => out.push(n),
+            RecordTypeWithData::SOA { mname, rname, .. } => {
+                out.push(mname);
+                out.push(rname);
+            }
+            RecordTypeWithData::MINFO { rmailbx, emailbx } => {
+                out.push(rmailbx);
+                out.push(emailbx);
+            }
+            _ => {}
+        }
+    }
+}
+
+fn same_labels(g: &DomainName, w: &DomainName) -> bool {
+    g.labels.len() == w.labels.len() && g.labels.iter().zip(&w.labels).all(|(x, y)| x.octets() == y.octets())
+}
+
+fn digest_name(n: &DomainName) -> u64 {
+    let mut h: u64 = 0xcbf2_9ce4_8422_2325;
+    for l in &n.labels {
+        h ^= u64::from(l.len());
+        h = h.wrapping_mul(0x0000_0100_0000_01b3);
+        for b in l.octets().iter() {
+            h ^= u64::from(*b);
+            h = h.wrapping_mul(0x0000_0100_0000_01b3);
+        }
+    }
+    h
+}
+
+fn check_wire_input(acc: &mut Acc, bytes: &[u8]) {
+    let want = match refwire::decode(bytes) {
+        Ok(m) => m,
+        Err(e) => {
+            // An input refused for a name limit must not yield names at all; if
+            // the implementation accepts it, whatever names it built are judged
+            // against the invariant.  (Whether it should be refused for other
+            // reasons is C03's business.)
+            if matches!(e.kind, refwire::RefErrKind::NameTooLong | refwire::RefErrKind::LabelType) {
+                acc.evals += 1;
+                acc.h("wire/refused-for-a-name-limit");
+                if let Ok(Ok(m)) = guarded(|| Message::from_octets(bytes)) {
+                    let mut names = Vec::new();
+                    names_of_message(&m, &mut names);
+                    let replay = json!({"kind": "wire", "input_hex": hex(bytes)});
+                    let mut all_fine = true;
+                    for n in names {
+                        all_fine &= acc.check_name(&format!("name decoded from {} (which the reference refuses: {:?})", c03::describe_input(bytes), e.kind), n, None, &replay);
+                    }
+                    if all_fine {
+                        acc.bad(
+                            "accepts-invalid",
+                            format!("from_octets accepts {} although a name in it breaks a limit ({:?})", c03::describe_input(bytes), e.kind),
+                            replay,
+                        );
+                    }
+                }
+            }
+            return;
+        }
+    };
+    acc.evals += 1;
+    let got = guarded(|| Message::from_octets(bytes));
+    let m = match got {
+        Ok(Ok(m)) => m,
+        Ok(Err(e)) => {
+            acc.bad(
+                "rejects-valid",
+                format!("from_octets refuses {} which the reference decodes ({e})", c03::describe_input(bytes)),
+                json!({"kind": "wire", "input_hex": hex(bytes)}),
+            );
+            return;
+        }
+        Err(()) => {
+            acc.bad("panic", format!("from_octets panicked on {}", c03::describe_input(bytes)), json!({"kind": "wire", "input_hex": hex(bytes)}));
+            return;
+        }
+    };
+    let mut got_names = Vec::new();
+    names_of_message(&m, &mut got_names);
+    let mut want_names = Vec::new();
+    names_of_message(&want, &mut want_names);
+    if got_names.len() != want_names.len() {
+        acc.bad(
+            "labels",
+            format!("{}: {} names decoded, reference has {}", c03::describe_input(bytes), got_names.len(), want_names.len()),
+            json!({"kind": "wire", "input_hex": hex(bytes)}),
+        );
+        return;
+    }
+    for (g, w) in got_names.iter().zip(&want_names) {
+        let long = g.len >= 250 || g.labels.iter().any(|l| l.len() == 63);
+        if g.labels.len() > 1 {
+            acc.nontrivial.push(digest_name(w) ^ 0x77_6972_65);
+        }
+        acc.h(if g.labels.len() == 1 { "wire/root-name" } else if long { "wire/name-at-a-limit" } else { "wire/name" });
+        acc.names += 1;
+        // fast path without allocation; the slow path produces the report
+        if invariant_ok(g) && same_labels(g, w) {
+            continue;
+        }
+        acc.names -= 1;
+        let expect = labels_of(w);
+        acc.check_name(&format!("name decoded from {}", c03::describe_input(bytes)), g, Some(&expect), &json!({"kind": "wire", "input_hex": hex(bytes)}));
+    }
+}
+
+// ---------------------------------------------------------------------------------------------
+// run
+// ---------------------------------------------------------------------------------------------
+
+pub fn run(ctx: &Ctx) -> i32 {
+    let tier = ctx.tier;
+    let wall_cap = tier.pick(40.0, 500.0);
+    install_quiet_hook();
+    let mut total = Acc::default();
+    let mut exhaustive = true;
+    let mut caps: Vec<String> = Vec::new();
+
+    // A/B
+    let vectors = length_vectors(tier.pick(1, 2), tier == Tier::Thorough);
+    let parts = par_fold(vectors.len(), ctx.threads, ctx.seed, Acc::default, |acc, i| {
+        check_from_labels(acc, &vectors[i], i % 7);
+    });
+    for p in parts {
+        total.merge(p);
+    }
+    {
+        let mut acc = Acc::default();
+        check_label_try_from(&mut acc);
+        // short vectors far from the limit, and the empty vector
+        for lens in [vec![], vec![1], vec![63], vec![1, 1], vec![63, 63, 63, 61], vec![63, 63, 63, 62], vec![63, 63, 63, 60]] {
+            check_from_labels(&mut acc, &lens, 0);
+        }
+        acc.evals += 1;
+        if let Ok(Some(_)) = guarded(|| DomainName::from_labels(Vec::new())) {
+            acc.bad("accepts-invalid", "from_labels accepted an empty label vector".into(), json!({"kind": "from_labels", "lengths": [], "empty_label_at": null}));
+        }
+        total.merge(acc);
+    }
+
+    // C
+    let maxlen = tier.pick(8usize, 10);
+    let n_small = n_small_strings(maxlen);
+    let parts = par_fold(n_small as usize, ctx.threads, ctx.seed, Acc::default, |acc, i| {
+        let s = small_string(i as u64, maxlen);
+        check_dotted(acc, &s, "dotted-small");
+        if acc.samples.is_empty() && i % 4001 == 77 {
+            acc.samples.push(json!({"space": "from_dotted_string", "text": s, "reference": ref_parse_absolute(&s).map(|l| show_labels(&l))}));
+        }
+    });
+    for p in parts {
+        total.merge(p);
+    }
+    let bstrings = boundary_strings();
+    let parts = par_fold(bstrings.len(), ctx.threads, ctx.seed, Acc::default, |acc, i| {
+        check_dotted(acc, &bstrings[i], "dotted-boundary");
+    });
+    for p in parts {
+        total.merge(p);
+    }
+
+    // E
+    let mut joins: Vec<(usize, usize)> = Vec::new();
+    for r in 2..=254usize {
+        for o in 1..=255usize {
+            if (250..=260).contains(&(r + o)) && o != 2 {
+                joins.push((r, o));
+            }
+        }
+    }
+    let parts = par_fold(joins.len(), ctx.threads, ctx.seed, Acc::default, |acc, i| {
+        check_join(acc, joins[i].0, joins[i].1);
+    });
+    for p in parts {
+        total.merge(p);
+    }
+
+    // F
+    let pool: Vec<DomainName> = CASE_POOL.iter().map(|s| dn(&s.to_lowercase())).collect();
+    let parts = par_fold(CASE_POOL.len(), ctx.threads, ctx.seed, Acc::default, |acc, i| {
+        check_case(acc, i, &pool);
+    });
+    for p in parts {
+        total.merge(p);
+    }
+
+    // G, H
+    {
+        let mut acc = Acc::default();
+        check_text_round_trip(&mut acc);
+        let two: Vec<Labels> = names_over(&[b"a", b"b"], 4);
+        check_subdomain(&mut acc, &two, "subdomain-2-letter");
+        let ext: Vec<Labels> = names_over(&[b"a", b"b", b"ba", b"a.b", b"."], tier.pick(3, 4));
+        check_subdomain(&mut acc, &ext, "subdomain-extended");
+        acc.samples.push(json!({"space": "is_subdomain_of", "pool_sizes": [two.len(), ext.len()], "example": "`a\\.b.` (one label holding a dot) is not a subdomain of `b.`"}));
+        total.merge(acc);
+    }
+
+    // D: names off the wire; big stacks because the deepest pointer ladders need
+    // most of a 2 MiB stack in the decoder (stack use itself is C03's business)
+    let mut jobs: Vec<(c03::Space, u64, u64)> = Vec::new();
+    for space in c03::SCHEDULE {
+        if space == c03::Space::Short {
+            continue; // shorter than a header: nothing decodes
+        }
+        let n = c03::space_items(space, tier);
+        let step: u64 = match space {
+            c03::Space::Tails => 100_000,
+            c03::Space::Subst => 1,
+            c03::Space::Extremes => 8,
+            c03::Space::Triples => 2048,
+            _ => tier.pick(512, 64),
+        };
+        let mut lo = 0;
+        while lo < n {
+            jobs.push((space, lo, (lo + step).min(n)));
+            lo += step;
+        }
+    }
+    let next = AtomicUsize::new(0);
+    let capped = AtomicBool::new(false);
+    let mut parts: Vec<Acc> = Vec::new();
+    std::thread::scope(|s| {
+        let mut hs = Vec::new();
+        for _ in 0..ctx.threads.max(1) {
+            let h = std::thread::Builder::new().stack_size(64 << 20).spawn_scoped(s, || {
+                let mut acc = Acc::default();
+                loop {
+                    let j = next.fetch_add(1, Ordering::Relaxed);
+                    if j >= jobs.len() {
+                        break;
+                    }
+                    if ctx.elapsed() > wall_cap {
+                        capped.store(true, Ordering::Relaxed);
+                        break;
+                    }
+                    let (space, lo, hi) = jobs[(j + ctx.seed as usize) % jobs.len()];
+                    for item in lo..hi {
+                        c03::for_each_input_opt(space, tier, item, false, &mut |b, _| check_wire_input(&mut acc, b));
+                    }
+                    // keep the digest list small: names repeat a lot
+                    if acc.nontrivial.len() > 2_000_000 {
+                        acc.nontrivial.sort_unstable();
+                        acc.nontrivial.dedup();
+                    }
+                }
+                acc
+            });
+            match h {
+                Ok(h) => hs.push(h),
+                Err(e) => {
+                    eprintln!("C16: cannot spawn thread: {e}");
+                    std::process::exit(2);
+                }
+            }
+        }
+        for h in hs {
+            match h.join() {
+                Ok(a) => parts.push(a),
+                Err(_) => {
+                    eprintln!("C16: worker thread panicked (machinery error)");
+                    std::process::exit(2);
+                }
+            }
+        }
+    });
+    for p in parts {
+        total.merge(p);
+    }
+    if capped.load(Ordering::Relaxed) {
+        exhaustive = false;
+        caps.push(format!("wall clock cap of {wall_cap} s reached while walking C03's corpus"));
+    }
+
+    total.nontrivial.sort_unstable();
+    total.nontrivial.dedup();
+
+    let mut report = Report::new();
+    report.evaluations = total.evals;
+    report.states = total.names;
+    report.transitions = total.evals;
+    report.traces_validated = total.evals;
+    report.distinct_nontrivial = total.nontrivial.len() as u64;
+    report.rule = "distinct digests of the cases in which a clause could fail: from_labels vectors (all have encoded length 240..262), Label::try_from lengths, dotted strings that are refused / hold an upper-case letter / come near a limit, every (relative, origin) join with total 250..260, every non-trivial case pattern, every octet x form of the text round trip, subdomain pairs that are proper suffixes or where the textual and the label-wise suffix relation differ, and distinct non-root names decoded from the wire. states = names obtained from the implementation and checked against the invariant".into();
+    report.samples = total.samples.clone();
+    report.samples.push(json!({"space": "from_labels", "label_lengths": vectors[vectors.len() / 2], "encoded_length": vectors[vectors.len() / 2].iter().map(|l| l + 1).sum::<usize>() + 1}));
+    report.samples.push(json!({"space": "join", "relative_octets": joins[joins.len() / 3].0, "origin_octets": joins[joins.len() / 3].1}));
+    report.samples.push(json!({"space": "case", "base": CASE_POOL[7], "variant": apply_case(CASE_POOL[7], 0b101101)}));
+    report.bounds = json!({
+        "from_labels": {
+            "label_lengths": "62 and 63 (any number), 31 (any number; quick: not together with a free label), 1 and 2 (bounded), one free label of any length 3..=61",
+            "max_labels_of_length_1_or_2_per_vector": tier.pick(1, 2),
+            "encoded_length": "240..=262",
+            "vectors": vectors.len(),
+            "empty_label": "in every position, and absent",
+        },
+        "from_dotted_string": {
+            "alphabet": "a B .",
+            "max_length": maxlen,
+            "strings": n_small,
+            "boundary_strings": bstrings.len(),
+        },
+        "joins": {"pairs": joins.len(), "relative_octets": "2..=254", "origin_octets": "1..=255 (not 2)", "total": "250..=260", "routes": ["make_subdomain_of", "from_relative_dotted_string", "zone file owner", "zone file RDATA name", "zone file relative $ORIGIN"]},
+        "case": {"pool": CASE_POOL.len(), "patterns": "all 2^k, k = letters in the name (<= 6)", "routes": ["from_dotted_string", "from_labels", "wire"]},
+        "text_round_trip": "every ASCII octet except '.', 5 label forms x 3 name shapes",
+        "subdomain": {"two_letter_pool": 31, "extended_alphabet": ["a", "b", "ba", "a.b (one label)", ". (one label)"], "extended_max_labels": tier.pick(3, 4)},
+        "wire": "every input of C03's spaces (same tier; truncated inputs left out) that the reference decoder accepts",
+    });
+    report.exhaustive = exhaustive;
+    if !caps.is_empty() {
+        report.extra.insert("caps".into(), json!(caps));
+    }
+    report.outcome_histogram = total.hist.clone();
+    report.extra.insert("violation_counts".into(), json!(total.viol_counts));
+    report.assumptions = vec![
+        "D9: the empty string passed to from_dotted_string is not judged (only the invariant of what comes back)".into(),
+        "`Label::try_from` and `Label::new` are used as trivial public constructors to hand labels to from_labels".into(),
+        "SharedCache runs on the real clock here (TTL 3600 s, looked up at once)".into(),
+        "stack use of the wire decoder is judged by C03, not here (names are decoded on 64 MiB stacks)".into(),
+    ];
+    total.viols.sort_by(|a, b| (a.clause.as_str(), a.summary.len(), a.summary.as_str()).cmp(&(b.clause.as_str(), b.summary.len(), b.summary.as_str())));
+    report.violations = total.viols;
+    finish(ctx, report)
+}
+
+fn labels_from_hex(v: &Value) -> Labels {
+    v.as_array().map(|a| a.iter().map(|x| unhex(x.as_str().unwrap_or(""))).collect()).unwrap_or_default()
+}
+
+pub fn replay(ctx: &Ctx, v: &Value) -> i32 {
+    let mut acc = Acc::default();
+    match v["kind"].as_str().unwrap_or("") {
+        "from_labels" => {
+            let lens: Vec<usize> = v["lengths"].as_array().map(|a| a.iter().map(|x| x.as_u64().unwrap_or(0) as usize).collect()).unwrap_or_default();
+            check_from_labels(&mut acc, &lens, v["salt"].as_u64().unwrap_or(0) as usize);
+        }
+        "label" | "label-octet" => check_label_try_from(&mut acc),
+        "dotted" => {
+            let s = v["text"].as_str().unwrap_or("");
+            println!("text: {s:?}");
+            println!("implementation: {:?}", DomainName::from_dotted_string(s).map(|n| show_name(&n)));
+            println!("reference:      {:?}", ref_parse_absolute(s).map(|l| show_labels(&l)));
+            check_dotted(&mut acc, s, "replay");
+        }
+        "join" => check_join(&mut acc, v["relative_octets"].as_u64().unwrap_or(2) as usize, v["origin_octets"].as_u64().unwrap_or(1) as usize),
+        "case" => {
+            let pool: Vec<DomainName> = CASE_POOL.iter().map(|s| dn(&s.to_lowercase())).collect();
+            if let Some(i) = CASE_POOL.iter().position(|b| Some(*b) == v["base"].as_str()) {
+                check_case(&mut acc, i, &pool);
+            }
+        }
+        "text-round-trip" | "text-round-trip-root" => check_text_round_trip(&mut acc),
+        "subdomain" => {
+            let pool = vec![labels_from_hex(&v["a"]), labels_from_hex(&v["b"])];
+            check_subdomain(&mut acc, &pool, "replay");
+        }
+        "wire-name" => {
+            let pool = vec![labels_from_hex(&v["labels"])];
+            check_subdomain(&mut acc, &pool, "replay");
+        }
+        "wire" => {
+            let b = unhex(v["input_hex"].as_str().unwrap_or(""));
+            println!("input: {}", c03::describe_input(&b));
+            check_wire_input(&mut acc, &b);
+        }
+        other => {
+            eprintln!("C16: unknown replay kind {other:?}");
+            return 2;
+        }
+    }
+    println!("cases evaluated: {}, names checked: {}", acc.evals, acc.names);
+    if acc.viols.is_empty() {
+        println!("replay: property holds on this case");
+        0
+    } else {
+        for x in &acc.viols {
+            println!("clause {}: {}", x.clause, x.summary);
+        }
+        println!("VIOLATION property={} replay=(replayed case)", ctx.id);
+        1
+    }
+}
+
 pub fn worker(_args: &[String]) -> i32 {
     2
 }
